@@ -47,7 +47,15 @@ def _check(ctx, prog):
     F_RPID = P.field_by_type(prog, ID, HADT, r"^libp2p_core::PeerId$")          # remote_peer_id
     F_RINFO = P.field_by_type(prog, ID, HADT, r"Option<protocol::Info>$")         # remote_info
     # ================================================================= handle_incoming_info(self, info = $2)
-    hi = ctx.body(ID, r"^libp2p_identify::handler::Handler::handle_incoming_info$")
+    # the check is the crate-local method whose bool result Handler::poll branches on
+    hp0 = ctx.body(ID, r"<handler::Handler as libp2p_swarm::ConnectionHandler>::poll$")
+    chk0 = {}
+    for s_, cb_ in P.crate_callees(prog, hp0):
+        if cb_.names.get(1) == "self" and P.truth_edges(hp0, P.is_call_at(s_), True):
+            chk0[cb_.npath] = cb_
+    if len(chk0) != 1:
+        raise mir.RuleError("Handler::poll: the key check was not identified (bool-returning helpers branched on: %s)" % sorted(chk0))
+    hi = ctx.use(next(iter(chk0.values())))
     H = P.Norm(hi)
     SIDES = {"self." + F_RPID, "libp2p_identity::PublicKey::to_peer_id($2.public_key)"}
 
@@ -92,7 +100,11 @@ def _check(ctx, prog):
         for s in lib.field_mut_calls(b, F_RPID) + b.field_write_sites(F_RPID):
             wp.setdefault(b.npath, []).append(s)
     ctx.ob("incoming", "remote_peer_id never reassigned", not wp, msg=str(sorted(wp)))
-    hn = ctx.body(ID, r"^libp2p_identify::handler::Handler::new$")
+    hei = ctx.body(ID, r"<behaviour::Behaviour as libp2p_swarm::NetworkBehaviour>::handle_established_inbound_connection$")
+    ctors = {cb_.npath: cb_ for _, cb_ in P.crate_callees(prog, hei) if [x for _, e in P.ret_exprs(cb_) for x in mir.walk(e) if x[0] == "agg" and x[1] == "adt" and strip_generics(x[2]) == "libp2p_identify::handler::Handler"]}
+    if len(ctors) != 1:
+        raise mir.RuleError("handler constructor not identified: %s" % sorted(ctors))
+    hn = ctx.use(next(iter(ctors.values())))
     ag = [x for _, e in P.ret_exprs(hn) for x in mir.walk(e) if x[0] == "agg" and x[1] == "adt" and strip_generics(x[2]) == "libp2p_identify::handler::Handler"]
     ok = False
     idx = None
@@ -101,7 +113,7 @@ def _check(ctx, prog):
         ok = v is not None and v[0] == "arg"
         idx = v[1] if ok else None
     ctx.ob("incoming", "Handler.remote_peer_id is a constructor argument", ok, "%s:%d" % (hn.file, hn.line), "argument #%s" % idx)
-    callers = prog.callers(ID, r"^libp2p_identify::handler::Handler::new$")
+    callers = prog.callers(ID, "^" + re.escape(hn.npath) + "$")
     ctx.floor("incoming", "Handler::new call sites", callers, 2)
     for s in callers:
         fn = s.body.short.split("::")[-1]
@@ -118,7 +130,7 @@ def _check(ctx, prog):
         for f in evt(e, "libp2p_identify::handler::Event", "Identified"):
             sites.append((s, f["0"]))
     ctx.floor("identified", "Event::Identified results in Handler::poll", sites, 2)
-    chk = hp.call_sites(r"Handler::handle_incoming_info$")
+    chk = hp.call_sites("^" + re.escape(hi.npath) + "$")
     ctx.floor("identified", "handle_incoming_info calls", chk, 2)
     merges = hp.call_sites(r"protocol::Info::merge$")
     ctx.floor("identified", "Info::merge call", merges, 1)
@@ -168,6 +180,7 @@ def _check(ctx, prog):
                               strip_generics(st["r"]["adt"]) == "libp2p_identify::behaviour::Event" and st["r"]["variant"] == "Received"):
             whoR.add(b.npath)
     ctx.ob("received", "Event::Received constructed only in the Identified arm", whoR == {bh.npath}, msg=str(sorted(whoR)))
+    MATCHES = None
     if ents and recv and ret:
         ent = ents[0]
         got = lib.count_range(bh, [ent], [recv[0].bb], lib.bbs(ret))
@@ -184,7 +197,9 @@ def _check(ctx, prog):
             ctx.use(cb)
             r0 = P.ret_exprs(cb)
             txt = P.Norm(cb).r(r0[0][1]) if len(r0) == 1 else str(len(r0))
-            ok = txt == "libp2p_identify::behaviour::multiaddr_matches_peer_id($2, ^0)" and len(ups) == 1 and ups[0][0] == "arg" and ups[0][1] == 2
+            fcal = P.crate_callees(prog, cb)
+            ok = len(r0) == 1 and len(fcal) == 1 and r0[0][1][0] == "call" and r0[0][1][3] == fcal[0][0].bb and txt.endswith("($2, ^0)") and len(ups) == 1 and ups[0][0] == "arg" and ups[0][1] == 2
+            MATCHES = fcal[0][1] if ok else None
         ctx.ob("received", "retain filters with the connection's peer id", ok, ret[0].loc(), txt)
         adds = bh.call_sites(r"PeerAddresses::add$")
         ctx.floor("received", "discovered_peers.add", adds, 1)
@@ -195,7 +210,9 @@ def _check(ctx, prog):
             ctx.ob("received", "cached addresses are taken from the filtered list, for this peer", B.r(a[1]) == "$2" and elem_ok and len(it) == 1 and
                    bh.must_pass_nodes([ent], [it[0].bb], lib.bbs(ret)), s.loc(), str([B.r(x)[-70:] for x in a[1:]]))
     # ================================================================= multiaddr_matches_peer_id(addr = $1, peer_id = $2)
-    mm = ctx.body(ID, r"^libp2p_identify::behaviour::multiaddr_matches_peer_id$")
+    if MATCHES is None:
+        raise mir.RuleError("the address filter predicate used by retain was not identified")
+    mm = ctx.use(MATCHES)
     M = P.Norm(mm)
     rd = P.ret_exprs(mm)
     LAST = "std::iter::Iterator::last(libp2p_core::Multiaddr::iter($1))"
@@ -240,12 +257,23 @@ def _check(ctx, prog):
         fb = prog.closure_body(tf, fb_e[1])
         ctx.use(val)
         ctx.use(fb)
+        # the validation may be delegated to a private helper: follow one level, mapping the captured key to the helper's parameter
+        KEYTXT = "^0"
+        vrs = P.ret_exprs(val)
+        vcal = P.crate_callees(prog, val)
+        if len(vrs) == 1 and len(vcal) == 1 and vrs[0][1][0] == "call" and vrs[0][1][3] == vcal[0][0].bb:
+            kidx = [i for i, a_ in enumerate(vrs[0][1][2]) if P.Norm(val).r(a_) == "^0"]
+            ctx.ob("record", "the delegated validation receives the key that becomes Info.public_key", len(kidx) == 1, vcal[0][0].loc(), P.Norm(val).r(vrs[0][1])[:160])
+            if len(kidx) == 1:
+                val = vcal[0][1]
+                ctx.use(val)
+                KEYTXT = "$%d" % (kidx[0] + 1)
         V = P.Norm(val)
         r = [P.Norm(fb).r(e) for _, e in P.ret_exprs(fb)]
         ok_fb = r == ["tuple{0: libp2p_identify::protocol::parse_listen_addrs(^0), 1: std::option::Option::None{}}"] and fb_e[0] == "closure" and [T.r(u) for u in fb_e[2]] == ["$1.listen_addrs"]
         ctx.ob("record", "fallback = (parse_listen_addrs(msg.listen_addrs), None)", ok_fb, "%s:%d" % (fb.file, fb.line), str(r))
         n_pos = 0
-        KEYID = "libp2p_identity::PublicKey::to_peer_id(^0)"
+        KEYID = "libp2p_identity::PublicKey::to_peer_id(%s)" % KEYTXT
 
         def same_rec(c):
             """record expression R if c is the canonical fact PeerRecord::peer_id(R) == to_peer_id(captured key)."""
@@ -291,11 +319,21 @@ def _check(ctx, prog):
         ctx.ob("record", "floor:accepting result of the validation closure", n_pos >= 1, nontrivial=False, msg="%d" % n_pos)
         fse = val.call_sites(r"PeerRecord::from_signed_envelope(_interop)?$")
         ctx.floor("record", "from_signed_envelope call", fse, 1)
-    users = set()
+    users = {}
     for b in prog.bodies(ID):
         if b.call_sites(r"PeerRecord::(addresses|from_signed_envelope|from_signed_envelope_interop)$"):
-            users.add(b.npath)
-    ctx.ob("record", "signed records are consumed only inside Info::try_from", len(users) == 1 and next(iter(users)).startswith(tf.npath), msg=str(sorted(users)))
+            users[b.npath] = b
+    def allowed_user(b):
+        if b.npath.startswith(tf.npath):
+            return True
+        root = b
+        while root.kind in ("closure", "coroutine") and root.parent:
+            ps = [x for x in prog.bodies(ID) if x.path == root.parent]
+            if not ps:
+                break
+            root = ps[0]
+        return root.vis not in ("pub",) and P.private_callers_ok(prog, root, [tf.npath])
+    ctx.ob("record", "signed records are consumed only inside Info::try_from (or a private helper only it calls)", len(users) >= 1 and all(allowed_user(b) for b in users.values()), msg=str(sorted(users)))
     pi = ctx.body(ID, r"^libp2p_identify::<protocol::PushInfo as std::convert::TryFrom>::try_from$")
     PI = P.Norm(pi)
     pf = [dict(x[4]) for _, e in P.ret_exprs(pi) for x in mir.walk(e) if x[0] == "agg" and x[1] == "adt" and strip_generics(x[2]) == "libp2p_identify::protocol::PushInfo"]
